@@ -48,7 +48,9 @@ fn shipped_pass(prop: &str, tier: &str) -> Result<serde_json::Value, i32> {
     if report::profile() == "shipped" || std::env::var("VERIF_NO_SHIPPED").is_ok() {
         return Ok(json!({"status": "skipped"}));
     }
-    let scale = std::env::var("VERIF_SCALE").ok().and_then(|s| s.parse::<f64>().ok()).unwrap_or(1.0) * 0.25;
+    // a quarter of the seeded runs; the self-tests that already scale the run counts down to a handful keep theirs
+    let parent = std::env::var("VERIF_SCALE").ok().and_then(|s| s.parse::<f64>().ok()).unwrap_or(1.0);
+    let scale = if parent < 1.0 { parent } else { parent * 0.25 };
     let t0 = std::time::Instant::now();
     let out = std::process::Command::new(shipped_bin())
         .args([prop, tier])
